@@ -237,7 +237,7 @@ def checks(tier):
         for eu in (True, False):
             for pre in (False, True):
                 life.append(dict(train_update=tu, eval_update=eu, as_prehook=pre, prefix=["register"], free=(4 if th else 3), flags=True))
-    cl = [dict(min=lo, max=hi, attr=a, as_prehook=pre) for (lo, hi) in ((-1.0, 1.0), (0.0, None), (None, 0.5), (0.25, 0.3)) for a in ("w", "inner.weight") for pre in (False, True)]
+    cl = [dict(min=lo, max=hi, attr=a, as_prehook=pre) for (lo, hi) in ((-1.0, 1.0), (0.0, None), (None, 0.5), (0.25, 0.3), (-1.0, 0.0), (0.0, 1.0), (None, 0.0)) for a in ("w", "inner.weight") for pre in (False, True)]
     nm = []
     for p in (1, 2, float("inf")):
         for scale in (1.0, -2.5):
@@ -253,7 +253,7 @@ BOUNDS = {
     "quick": {"programs": "all programs of 4 operations (5-6 after the fixed prefixes register / register-deregister / register-deregister-register / register-call / register-eval) over "
                           "{register, deregister, train, eval, call, manual(force, ignore_mode), delete+collect} x 4 enable-flag combinations x pre/post; "
                           "after [register] also 3-operation programs that additionally flip the trainexec / evalexec flags",
-              "clamping": "symbolic 2x2 buffer and nested Parameter, 4 bound settings, pre/post; decided over the reals and again bit-exactly over IEEE float32 variables", "normalisation": "p in {1, 2, inf}, scale in {1, -2.5}, shapes (3,), (2,2), dims None/0/-1/(0,1)"},
+              "clamping": "symbolic 2x2 buffer and nested Parameter, 7 bound settings (two-sided, one-sided, and limits that are exactly 0), pre/post; decided over the reals and again bit-exactly over IEEE float32 variables", "normalisation": "p in {1, 2, inf}, scale in {1, -2.5}, shapes (3,), (2,2), dims None/0/-1/(0,1)"},
     "thorough": {"programs": "5 free operations"},
 }
 OUTSIDE = ["p-norms with non-integer p", "vectors whose norm lies in (0, 1e-6) (F.normalize's epsilon floor)", "garbage-collection timing is executed under CPython, not modelled",
